@@ -3,23 +3,44 @@
 // C12 (the writer serialises exactly what it was given) and C13 (name
 // compression only emits valid, permitted pointers).
 //
-// Oracles: the independent message decoder of kani_common (ref_decode_lim,
-// ref_name) applied to the finished message, plus small arithmetic models of
-// the documented size/limit rules written here.  Nothing is compared against
-// the reader of quandary.
+// Oracles: the independent message decoder of kani_common (ref_decode_lim:
+// framing, counts, OPT/TSIG placement, every pointer strictly backwards onto
+// a registered label start, no pointer inside incompressible RDATA), the
+// RFC 1035 name walk `check_name` written here, and small arithmetic models
+// of the documented size/limit rules.  Nothing is compared against the
+// reader of quandary.
 //
-// Shapes are CONCRETE (one harness per operation program); the symbolic parts
-// are the size limit (so truncation can strike at every push site), header
-// fields, TTL/class/type/RDATA octets and the ASCII case bits of letters.
+// Shapes are CONCRETE (one harness per operation program; the compression
+// mode is a const generic); symbolic are: the size limit in force for the
+// LAST operation of a program (set_limit(any) just before it, so truncation
+// can strike at each of its push sites), header fields, QTYPE/QCLASS, TTLs,
+// non-name RDATA octets and the ASCII case bit of every letter.  Names are
+// one-letter labels, 2-4 labels; buffers are 64 octets.
+//
+// Why the limit is symbolic only for the last operation: CBMC merges the
+// refused and accepted paths of an operation at its return; after that the
+// cursor is an if-then-else and every later write goes to a symbolic index.
+// A failed operation in the MIDDLE of a program is covered with concrete
+// refusals (c12_prog_order_clear: OutOfOrder x2, Truncation, then more
+// operations).
 //
 // Inputs are built on the stack so that CBMC keeps their constants:
 //   * `name_view` lays out a `Name` (repr(C): n_labels, label offsets, wire
 //     form) in an array literal and views it as `&Name`, exactly as
-//     `Name::root()` does with its static; harness c12_inputs_wellformed
-//     checks these views against `Name::try_from_uncompressed`.
+//     `Name::root()` does with its static; c12_inputs_wellformed checks these
+//     views against `Name::try_from_uncompressed`.
 //   * `rdataset_view` views `[len_lo, len_hi, rdata.., ...]` as `&RdataSet`
 //     (repr(transparent) over [u8], native-endian length prefixes); the same
-//     harness checks it against `RdataSetOwned::from_iter`.
+//     harness checks that RdataSet::iter yields the intended RDATA.
+// RDATA names still go through `Box<Name>` inside Rdata::components.
+//
+// Stub S8 (Writer::write -> element-wise stores) is used by every program
+// harness and proven equal to the real function in c12_write_matches_model.
+//
+// All harnesses run with kani="--no-assertion-reach-checks": Kani's
+// per-assertion reachability checks made CBMC emit one full JSON trace per
+// harness assert (measured: 209 traces, 1.1 GB, 515 s instead of 72 s).
+// Vacuity is guarded by the kani::cover! witnesses instead.
 
 use super::*;
 use crate::kani_common::*;
